@@ -78,6 +78,9 @@ func registerAll() {
 	reg("L16", "established sizes carry the encoded prefix: every literal, absolute assignment and computed size function starts from the prefix constant of the object's kind and state (data slabs: root / non-root / inlined per getPrefixSize; one constant for every other kind; list literals add their per-entry constant)", ruleL16)
 	reg("K2", "entry counts: element.Count of a collision group is its own element list's Count, of a single element 1; elements.Count is the length of the receiver's element slice (the collision limit counts entries through these)", ruleK2)
 	reg("X7", "decoded objects own their storage: no slice, map or pointer reachable by loads alone from the slab's shared inlined extra data is stored into a freshly decoded slab, element list or extra data", ruleX7)
+	reg("X8", "no silent skip on a family downcast: a comma-ok assertion of a slab / element / element-list interface value to one member either reports the other members as an error or rejoins the common path; an early success return on the not-ok edge is a silent skip", ruleX8)
+	reg("L17", "batch builders: the next tree level is built only from a slice tested (after its last change) to hold at least two slabs; the underfull last slab of a level merges only where its left sibling cannot lend and borrows only where it can", ruleL17)
+	reg("N4", "identity predicate: ValueID.equal(SlabID) is true exactly when address and index both match (evaluated on the four truth assignments of its component comparisons; halves checked from the slice bounds)", ruleN4)
 	reg("I2", "iterator cursor advance: every exit of a Next/next method that hands out an element is preceded on all paths by a write of the iterator's cursor state (own field, nested iterator, or delegation to its own Next)", ruleI2)
 	reg("I3", "range validation: the range iterator constructors reject start > end and bounds beyond the count", ruleI3)
 
@@ -105,7 +108,7 @@ func registerAll() {
 	}
 	propTable["C05"] = &PropSpec{
 		ID:    "C05",
-		Rules: []string{"L5", "L6", "L9", "L13", "L14", "L7"},
+		Rules: []string{"L5", "L6", "L9", "L13", "L14", "L17", "L7"},
 		Explanation: "for EVERY slab size t in [minSlabSize, maxSlabSize] (affine-interval abstract interpretation of setThreshold, not a sample): minThreshold is t/2, maxThreshold is 1.5t and fits the 16-bit size fields, two maximal array elements plus the slab prefix fit in t, two maximal map elements plus digests and prefixes fit in t, a maximal key plus an equal value fit the element limit, and no unsigned subtraction underflows; every element is materialised with the limit of its container kind; every mutation path runs the full / underflow decision and refreshes the index data it summarises (sizes, counts, cumulative counts, header copies).",
 		NotDecided: "that split, lend/borrow and merge choose points that keep both sides inside the band (depends on element sizes); sortedness/uniqueness of digests and sibling links (value-level).",
 		Technique:  "affine-interval abstract interpretation (exhaustive over the symbolic slab size), value-flow checks on Storable() limits, must-pass-through path rules",
@@ -147,7 +150,7 @@ func registerAll() {
 	}
 	propTable["C11"] = &PropSpec{
 		ID:    "C11",
-		Rules: []string{"R7", "N1", "N2", "N3", "R3"},
+		Rules: []string{"R7", "N1", "N2", "N4", "N3", "R3"},
 		Explanation: "every Storable returned by an exported Array/OrderedMap method is the result of uninlineStorableIfNeeded (so a detached inlined child becomes a stored standalone slab) and that helper uninlines both slab kinds; the mutableElementIndex entry of a removed/overwritten child is deleted, guarded only by identity tests; parent-updater callbacks re-set the child only on paths that passed the true edge of a ValueID.equal test and after a fresh lookup; parentUpdater is assigned only by setParentUpdater and cleared only on the not-found edge of its own invocation.",
 		NotDecided: "that re-validation compares the right element after arbitrary histories; equality of identity after reattachment.",
 		Technique:  "value-flow on return operands, control-dependence slices, edge-restricted reachability in callback closures",
@@ -189,14 +192,14 @@ func registerAll() {
 	}
 	propTable["C13"] = &PropSpec{
 		ID:    "C13",
-		Rules: []string{"X4", "I2", "I3", "X1", "R5", "R6"},
+		Rules: []string{"X4", "I2", "I3", "X1", "X8", "R5", "R6"},
 		Explanation: "every exit of an iterator Next method that hands out an element is preceded on all paths by a cursor advance; range constructors reject start > end and bounds beyond the count before building an iterator and leave no trace; Next/NextKey/NextValue of each iterator type write the same cursor fields (no flavour can skip or repeat relative to its siblings); every slab/element kind is handled by the iterator type switches (no silent skip); mutable iteration hands out children with the parent callback installed, read-only iterators arm the mutation error on every element.",
 		NotDecided: "exactly-once, canonical order and the loaded-subset subsequence property (value-level).",
 		Technique:  "may-effect comparison of sibling methods, type-switch exhaustiveness, must-pass-through path rule",
 	}
 	propTable["C17"] = &PropSpec{
 		ID:    "C17",
-		Rules: []string{"X5", "X6", "R1", "R2", "L14"},
+		Rules: []string{"X5", "X6", "R1", "R2", "L14", "L17"},
 		Explanation: "for every type with a can-copy/copy pair the predicate is constant false exactly when the operation fails on every path, and non-constant predicates refuse on exactly the receiver state the operation fails on (the rest is delegated to the elements' own pair); every slice/map/pointer field of a copy receives a fresh or cloned value, never one loaded from the source.",
 		NotDecided: "equality of content, validity 'as if built by individual operations' (tail-rebalance arithmetic), byte-array conversions.",
 		Technique:  "return-constant and control-dependence comparison of sibling methods; alias check on stores into the fresh result",
